@@ -58,6 +58,7 @@ pub(super) mod http1 {
     use http::uri::Scheme;
     use http::Uri;
 
+    use crate::client::conn::connection::{ConnectionError, UriError};
     use crate::client::conn::Connection;
     use crate::client::Error;
     use crate::service::client::ExecuteRequest;
@@ -176,6 +177,14 @@ pub(super) mod http1 {
         }
 
         if req.request().method() == http::Method::CONNECT {
+            if req.request().uri().authority().is_none() {
+                return Err(Error::Connection(
+                    ConnectionError::InvalidUri(UriError::MissingAuthority(
+                        req.request().uri().clone(),
+                    ))
+                    .into(),
+                ));
+            }
             authority_form(req.request_mut().uri_mut());
 
             // If the URI is to HTTPS, and the connector claimed to be a proxy,
@@ -212,13 +221,9 @@ pub(super) mod http1 {
         };
     }
 
-    fn absolute_form(uri: &mut Uri) {
-        debug_assert!(uri.scheme().is_some(), "absolute_form needs a scheme");
-        debug_assert!(
-            uri.authority().is_some(),
-            "absolute_form needs an authority"
-        );
-    }
+    /// A URI without scheme or authority (origin-form, asterisk-form) is sent as it is:
+    /// there is nothing to convert.
+    fn absolute_form(_uri: &mut Uri) {}
 
     /// Convert the URI to origin-form, if it is not already.
     ///
